@@ -788,6 +788,7 @@ class Seams:
         ps._pslinux.set_scputimes_ntuple.cache_clear()
         ps._pslinux.scputimes = self._import_state["scputimes"]
         ps.PROCFS_PATH = self.world.procfs if self.world is not None else "/proc"
+        ps._pslinux.CLOCK_TICKS = CLK_TCK           # (read from sysconf at import time)
 
 
 _MISSING = object()
